@@ -768,7 +768,7 @@ def analyse_functor(prog, F, fn):
 
         def atomize(leaf):
             return None
-        conds = cfg.guards_of(r)
+        conds = [(c, pol, None) for (c, pol) in ex.ast_conditions(r)]
         decided = True
         bad = None
         for m, nn in itertools.product(range(0, 8), range(0, 8)):
